@@ -53,6 +53,30 @@ def prepare_db(d, backup_present, phase1_present, stale_wal=False):
     return _prepare(d, backup_present, phase1_present, True)
 
 
+def start_holder(d, backup_present, phase1_present):
+    """The populating process keeps its context open while the workers run
+    (a parent that filled the database and then started a worker pool): all
+    pages are committed, but still only in the write-ahead log.  Returns
+    (pid, pipe to close when the holder should die)."""
+    r, w = os.pipe()
+    rr, ww = os.pipe()
+    pid = os.fork()
+    if pid == 0:
+        try:
+            os.close(w)
+            os.close(rr)
+            _prepare(d, backup_present, phase1_present, False)
+            os.write(ww, b"r")
+            os.read(r, 1)       # parent closes its end when the case is over
+        finally:
+            os._exit(0)
+    os.close(r)
+    os.close(ww)
+    os.read(rr, 1)
+    os.close(rr)
+    return pid, w
+
+
 def _prepare(d, backup_present, phase1_present, close):
     env.setup()
     db = os.path.join(d, "pages.db")
@@ -327,7 +351,8 @@ def run_stress(db, n, offsets, orders):
 def judge(res, ref, before, after, variant, mode):
     base = {"mode": mode, "backup_present": variant[0],
             "phase1_present": variant[1],
-            "stale_wal": len(variant) > 2 and variant[2]}
+            "stale_wal": len(variant) > 2 and variant[2],
+            "holder_open": len(variant) > 3 and variant[3]}
     out = []
     for i, r in enumerate(res):
         if r[0] == "exc":
@@ -366,12 +391,18 @@ def one_case(args):
     env.setup()
     d = tempfile.mkdtemp(prefix="verif-c20-")
     try:
-        db = prepare_db(d, *variant)
+        holder = None
+        if len(variant) > 3 and variant[3]:
+            holder = start_holder(d, variant[0], variant[1])
+            db = os.path.join(d, "pages.db")
+        else:
+            db = prepare_db(d, *variant[:3])
         # the content every worker must see: with a backup present the
         # restored (backup) content
         before = rows(os.path.join(d, "pages_backup.db")) if variant[0] \
             else rows(db)
-        status, ref, _ = par.fork_child(reference, (variant,), timeout=120)
+        status, ref, _ = par.fork_child(reference, (tuple(variant[:3]),),
+                                        timeout=120)
         if status != "ok":
             return {"harness": f"reference failed: {status} {ref!r}"}
         import random
@@ -392,6 +423,12 @@ def one_case(args):
                           for t in spans[i + 1:]
                           if s[0] < t[1] and t[0] < s[1]) >= 1
             switches, gates = 0, []
+        if holder is not None:
+            os.close(holder[1])
+            try:
+                os.waitpid(holder[0], 0)
+            except ChildProcessError:
+                pass
         after = rows(db) if os.path.exists(db) else []
         viols = [] if inconc else judge(res, ref, before, after, variant, mode)
         return {"viols": viols, "inconclusive": inconc, "overlap": overlap,
@@ -408,6 +445,20 @@ def hold_schedules(total_gates):
         head = total_gates + k + 2
         out.append([0] * head + [1] * (total_gates + 40))
         out.append([1] * head + [0] * (total_gates + 40))
+    return out
+
+
+def late_start_schedules(total_gates):
+    """Three workers: one runs to its end (and closes) while a second is
+    parked between pages with its context open, then a third only starts;
+    every choice of who is parked after how many pages."""
+    full = total_gates + 40
+    out = []
+    for k in (1, 3):
+        head = total_gates + k + 2
+        out.append([1] * head + [0] * full + [2] * full + [1] * full)
+        out.append([2] * head + [1] * full + [0] * full + [2] * full)
+    out.append([0] * full + [1] * full + [2] * full)   # strictly one by one
     return out
 
 
@@ -439,7 +490,8 @@ def run(run):
     run.extra["gates_per_worker_start_up"] = total
     jobs = []
     variants = [(False, False), (False, True), (True, False), (True, True),
-                (True, False, True), (True, True, True)]
+                (True, False, True), (True, True, True),
+                (False, False, False, True), (False, True, False, True)]
     pre = preemption_schedules(total)
     for v in variants:
         sel = pre if not quick else pre[::max(1, len(pre) // 10)]
@@ -449,6 +501,9 @@ def run(run):
             sel = pre[:60] if len(v) > 2 else pre[:60:3]
         for s in sel + (hold_schedules(total) if not v[0] else []):
             jobs.append(("A", v, 2, s, rnd.randint(0, 10 ** 6)))
+        if not v[0]:
+            for s in late_start_schedules(total):
+                jobs.append(("A", v, 3, s, rnd.randint(0, 10 ** 6)))
         nrand = (6 if quick else 150)
         for _ in range(nrand):
             n = 2 if quick or rnd.random() < 0.5 else 3
@@ -456,7 +511,8 @@ def run(run):
             jobs.append(("A", v, n, s, rnd.randint(0, 10 ** 6)))
     rounds = 8 if quick else 120
     for r_ in range(rounds):
-        v = variants[r_ % 2]        # stress runs without a backup file
+        v = [variants[0], variants[1], variants[6], variants[7]][r_ % 4]
+        # (stress runs without a backup file)
         n = rnd.choice([2, 4, 8] if quick else [2, 3, 4, 8, 16])
         offs = [rnd.randint(0, 20) for _ in range(n)]
         jobs.append(("B", v, n, offs, rnd.randint(0, 10 ** 6)))
@@ -476,6 +532,7 @@ def run(run):
                  sample={"mode": mode, "workers": n, "backup_present": v[0],
                          "phase1_present": v[1],
                          "stale_wal": len(v) > 2 and v[2],
+                         "holder_open": len(v) > 3 and v[3],
                          "schedule_or_offsets": payload[:40],
                          "context_switches": r["switches"]})
         for sig, what in r["viols"]:
@@ -487,7 +544,11 @@ def run(run):
         "5 pages; variants: backup file present / absent - and with a backup, "
         "the write-ahead log of the superseded database left behind by a "
         "writer that died, or not -, Module:_sandbox_phase1 present / "
-        "absent). Mode A: 2-3 workers each "
+        "absent, and the populating process still holding its context open "
+        "(all pages committed but only in the write-ahead log) or gone). "
+        "Three-worker late-start schedules let one worker finish and close "
+        "while a second is parked with its context open before a third "
+        "starts. Mode A: 2-3 workers each "
         "construct Wtp(db_path) and process the pages in a seeded order under "
         "a line tracer restricted to create_db, init_wikidata_cache, "
         "add_empty_sandbox_lua_module, add_page, backup_db_path; at every "
